@@ -2,6 +2,7 @@
 from .. import common as C, structs as S, clientgen as G, refcodec as R
 
 LEAN_MODULES = ["ZvtVerif.Properties.C11"]
+TRANSLATED = {"structs", "fileids"}      # translated tables this property consumes (a translator problem elsewhere does not break its tie)
 ASSUMPTIONS = ["payload directories are created under /verif/.build/scratch and removed after each case",
                "read_at on a regular file (or a symbolic link to one; one payload entry in four is a link) returns min(len, size - offset) bytes",
                "the announced list is compared as a set (sorted by id): the code iterates a HashMap"]
